@@ -68,6 +68,8 @@ var selAlphabet = []selSpec{
 	// selectors made of negative requirements only: they match objects without any labels
 	{"kind=Widget,!tier", corev1alpha1.ProbeSelector{Kind: kindSel("Widget"), Selector: &metav1.LabelSelector{MatchExpressions: []metav1.LabelSelectorRequirement{{Key: "tier", Operator: metav1.LabelSelectorOpDoesNotExist}}}}, "match", "!tier"},
 	{"app notin (y)", corev1alpha1.ProbeSelector{Selector: &metav1.LabelSelector{MatchExpressions: []metav1.LabelSelectorRequirement{{Key: "app", Operator: metav1.LabelSelectorOpNotIn, Values: []string{"y"}}}}}, "", "notin-y"},
+	// the same kind name in another API group (here: the core group) is another kind
+	{"kind=core/Widget", corev1alpha1.ProbeSelector{Kind: &corev1alpha1.PackageProbeKindSpec{Group: "", Kind: "Widget"}}, "mismatch", ""},
 }
 
 // ---- object alphabet ----
@@ -379,7 +381,7 @@ func run(o checks.Opts) *report.Report {
 	rep.Bounds["objects"] = len(objs)
 	rep.Bounds["first_probe_variants"] = len(first)
 	rep.Bounds["second_probe_variants"] = len(second)
-	rep.Rule = "probe lists: [] , [p] and [p,q] with p from 8 selectors (kind, label equality, none, negative-only requirements) x (<=2 probes from 10 kinds incl. a failing CEL rule with an empty message and fieldsEqual over two absent fields), q from selectors x (<=1 probe); objects: generation x labels x status shape (absent, {}, scalar, observedGeneration absent/=/!=/0/string/float x 15 conditions shapes x fieldsEqual operand absent/equal/different); every list is parsed by the real internal/probing.Parse and probed on every object; distinct = (success, #messages, undecided)"
+	rep.Rule = "probe lists: [] , [p] and [p,q] with p from 9 selectors (kind, the same kind name in the core group, label equality, none, negative-only requirements) x (<=2 probes from 10 kinds incl. a failing CEL rule with an empty message and fieldsEqual over two absent fields), q from selectors x (<=1 probe); objects: generation x labels x status shape (absent, {}, scalar, observedGeneration absent/=/!=/0/string/float x 15 conditions shapes x fieldsEqual operand absent/equal/different); every list is parsed by the real internal/probing.Parse and probed on every object; distinct = (success, #messages, undecided)"
 	var lists [][]osProbe
 	lists = append(lists, nil)
 	for _, p := range first {
